@@ -18,7 +18,8 @@ RULE = (
     "(iii) conv+pipe+grout layers sum to R_b*; (iv) closed heat balance stored + crossed-into-far-field = injected (1e-6), "
     "and stored alone when the crossed fraction < 1e-7; (v) finite, lntts strictly increasing, g non-decreasing, g_bhw >= 0, "
     "g >= -2 pi k R_b*; (vi, sub 'reference') g at the end of the period within 0.5 % of an independent layered radial "
-    "solver (2x cells per layer, dt = 30 s, own banded solve). Every valid case is non-trivial; distinct by case hash."
+    "solver (2x cells per layer, dt = 30 s, own banded solve). reuse: one model instance called for a sequence of 2..4 "
+    "different boreholes: layer resistance / floor refer to the borehole passed and the arrays equal a fresh model's. Every valid case is non-trivial; distinct by case hash."
 )
 ASSUMPTIONS = [
     "heat balance read as closed balance (stored + heat that reached the 10 m Dirichlet boundary), see DESIGN.md C10",
@@ -217,6 +218,67 @@ def check_reference(case, rec):
     rec.cls("reference_compared")
 
 
+def check_reuse(case, rec):
+    """one RadialNumericalBH instance serves a sequence of boreholes (GHE.simulate passes a new equivalent tube on every
+    call for double-U / coaxial exchangers): every call must describe the borehole that was passed"""
+    import ghedesigner.radial_numerical_borehole as rnb
+    from ghedesigner.radial_numerical_borehole import CellProps as C
+
+    tubes = [guarded(gp.build_bhe, c, what="borehole construction")[0] for c in case["tubes"]]
+    radial = rnb.RadialNumericalBH(tubes[0])
+    orig_fill = radial.fill_radial_cells
+    cells_box = {}
+
+    def fill(*a, **k):
+        c = orig_fill(*a, **k)
+        cells_box["c"] = c.copy()
+        return c
+
+    radial.fill_radial_cells = fill
+    for i, (bhe, c) in enumerate(zip(tubes, case["tubes"])):
+        guarded(radial.calc_sts_g_functions, bhe, what="calc_sts_g_functions (re-used model)")
+        cells = cells_box["c"]
+        rb = float(bhe.calc_effective_borehole_resistance())
+        sl = slice(3, 3 + 1 + 4 + 27)
+        r_sum = float(np.sum(np.log(cells[C.R_OUT][sl] / cells[C.R_IN][sl]) / (2 * math.pi * cells[C.K][sl])))
+        if abs(r_sum - rb) > 1e-10 * rb:
+            raise Violation(f"call {i + 1} on a re-used model: layers sum to {r_sum!r} m-K/W, R_b* of the borehole passed is {rb!r}",
+                            sig={"kind": "layer_resistance", "reuse": True})
+        fresh = rnb.RadialNumericalBH(bhe)
+        fresh.calc_sts_g_functions(bhe)
+        for nm in ("lntts", "g", "g_bhw"):
+            a, b = np.asarray(getattr(radial, nm)), np.asarray(getattr(fresh, nm))
+            if a.shape != b.shape or np.max(np.abs(a - b)) > 1e-12 * (1 + np.max(np.abs(b))):
+                raise Violation(f"call {i + 1} on a re-used model: {nm} differs from a freshly built model for the same borehole "
+                                f"(max |diff| {np.max(np.abs(a - b)) if a.shape == b.shape else 'shape'})",
+                                sig={"kind": "reuse_differs", "array": nm})
+        floor = -2 * math.pi * float(bhe.soil.k) * rb
+        if np.any(np.asarray(radial.g) < floor * (1 + 1e-12) - 1e-12):
+            raise Violation("g drops below -2 pi k R_b* of the borehole passed", sig={"kind": "g_floor", "reuse": True})
+    rec.nontriv(case)
+    rec.cls(f"calls_{len(tubes)}")
+    rec.sample({"tubes": case["tubes"]})
+
+
+@st.composite
+def _reuse_case(draw):
+    """boreholes that share the geometry the model instance was built for (radii, spacing) -- what GHE.simulate passes from
+    call to call -- and the ground, and differ in height, grout, pipe material, fluid and flow"""
+    first = draw(gp.bhe_case(kind="SINGLEUTUBE"))
+    tubes = [first]
+    for _ in range(draw(st.integers(1, 3))):
+        other = draw(gp.bhe_case(kind="SINGLEUTUBE"))
+        other["soil"] = dict(first["soil"])  # the model caches 2 pi k_soil at construction: same ground, as in GHE.simulate
+        other["borehole"] = dict(first["borehole"], H=other["borehole"]["H"])
+        other["pipe"] = dict(first["pipe"], k=other["pipe"]["k"], rhoCp=other["pipe"]["rhoCp"])
+        tubes.append(other)
+    return {"tubes": tubes}
+
+
+def search_reuse(ctx):
+    ctx.given(_reuse_case(), ctx.n(64, 2000), shrink=ctx.tier != "quick")
+
+
 def _cases():
     # a third of the cases at very low flow so that the laminar regime is well represented
     return st.one_of(gp.bhe_case(kind="SINGLEUTUBE"), gp.bhe_case(kind="SINGLEUTUBE"),
@@ -234,4 +296,5 @@ def search_reference(ctx):
 SUBS = [
     Sub("radial", lambda c, r: check_radial(c, r) and None, search_radial, shards=lambda t: 8),
     Sub("reference", check_reference, search_reference, shards=lambda t: 16),
+    Sub("reuse", check_reuse, search_reuse, shards=lambda t: 8),
 ]
